@@ -342,6 +342,57 @@ def run(ctx):
         rep.check(fld in wreads, "C04.R6", "diff-reads:WarpState.%s" % fld, "diff_state reads WarpState.%s" % fld,
                   "appliers can modify WarpState.%s but diff_state never reads it" % fld, site=ws)
 
+    # ---- R10 (round 5)
+    rep.rule("C04.R10", "the cross-instance differ keeps warp scope; a history jump is always a full replay")
+    # diff_state is the one function that walks ALL instances.  A collection it builds is consulted for every instance, so its key
+    # must carry the warp: a set of bare local ids built for one instance suppresses or matches elements of every other instance
+    # that happen to share the local id (local ids are only unique per warp).
+    ds = prog.fn(TP + "diff_state")
+
+    def scoped(ty, depth=0):
+        ty = str(ty)
+        if "WarpId" in ty:
+            return True
+        if depth > 3:
+            return False
+        for path, a in prog.adts.items():
+            if path in ty and path.startswith("warp_core::"):
+                if any(scoped(fl["ty"], depth + 1) for v in a["variants"] for fl in v["fields"]):
+                    return True
+        return False
+    n_coll = 0
+    for ty in sorted({str(t) for t in ds.locals}):
+        m_ = re.match(r"^std::collections::BTree(Set|Map)<(.*)>$", ty)
+        if not m_:
+            continue
+        key = m_.group(2)
+        if m_.group(1) == "Map":   # key is everything up to the first top-level comma
+            d_, cut = 0, len(key)
+            for i_, ch in enumerate(key):
+                d_ += ch in "<([" ; d_ -= ch in ">)]"
+                if ch == "," and d_ == 0:
+                    cut = i_
+                    break
+            key = key[:cut]
+        n_coll += 1
+        rep.check(scoped(key), "C04.R10", "diff_state:cross-instance-collection-is-warp-scoped:%s" % key.rsplit("::", 1)[-1], "keyed by %s (carries the warp)" % key,
+                  "diff_state builds a collection keyed by %s, which does not carry the warp id, and consults it across instances: an element of another instance with the same local id is "
+                  "treated as the recorded one (ops suppressed or mis-matched), so the patch no longer replays to the post-state" % key, site=ds.loc())
+    rep.check(n_coll >= 3, "C04.R10", "diff_state:collections", "%d cross-instance collections examined" % n_coll, "only %d collections found in diff_state" % n_coll, site=ds.loc())
+    # Engine::jump_to_tick: every success return has reset the state to the preserved U0 and replayed the patches.  A shortcut that
+    # returns early because some digest of the current state matches (the state root covers only reachable content) keeps a state
+    # the patches do not produce.
+    jt = prog.fn("warp_core::engine_impl::Engine::jump_to_tick")
+    resets = [b for b in assign_blocks(jt, "warp_core::engine_impl::Engine", "state")]
+    applies = jt.call_sites(r"::apply_to_state$")
+    oks_j, _ = ok_return_blocks(jt)
+    rep.check(bool(resets) and bool(applies) and bool(oks_j), "C04.R10", "jump:anchors", "reset=%d apply=%d ok=%d" % (len(resets), len(applies), len(oks_j)),
+              "jump_to_tick anchors missing: reset=%d apply=%d ok=%d" % (len(resets), len(applies), len(oks_j)), site=jt.loc())
+    if resets and applies and oks_j:
+        w_ = jt.path([0], oks_j, avoid_blocks=resets)
+        rep.check(w_ is None and dominates(jt, resets, applies) is None, "C04.R10", "jump:every-success-replays-from-U0", "every Ok return passed the reset to the initial state; replay follows the reset",
+                  "jump_to_tick can return Ok without resetting to the initial state and replaying (%s): the state it keeps is not the one the patches produce" % jt.describe_path(w_), site=jt.loc())
+
 
 def fn_local_ty(fn, o):
     p = op_place(o)
